@@ -281,7 +281,7 @@ func c19ReadCursor(data []byte, window int) (texts []string, err error) {
 }
 
 // c19CheckCursor: the cursor read path of one written file against the rows written.
-func c19CheckCursor(ctx *core.Ctx, data []byte, want []string, window int, sig string, detail func(map[string]any) map[string]any) {
+func c19CheckCursor(ctx *core.Ctx, data []byte, want []string, window int, sig string, detail func(map[string]any) map[string]any, l2 ...*c19NavL2) {
 	ctx.Hist("shred.read", "cursor")
 	got, err := c19ReadCursor(data, window)
 	if err != nil {
@@ -303,6 +303,12 @@ func c19CheckCursor(ctx *core.Ctx, data []byte, want []string, window int, sig s
 			return
 		}
 	}
+	// any path, shredded or not, navigated through the same reader (c19_nav.go)
+	var tie *c19NavL2
+	if len(l2) > 0 {
+		tie = l2[0]
+	}
+	c19CheckCursorPaths(ctx, data, want, window, sig, detail, tie)
 }
 
 // ---------------------------------------------------------------- dictionary / page layout stream
